@@ -51,12 +51,13 @@ ZeroInBand(s, nw) == /\ RLeq(<<Deg(s, MinLevel(s)), 2>>, nw)
                      /\ RLeq(nw, RSub(RInt(Capacity(s)), <<Deg(s, MaxLevel(s)), 2>>))
 ZeroStrictIn(s, nw) == /\ RLess(<<Deg(s, MinLevel(s)), 2>>, nw)
                        /\ RLess(nw, RSub(RInt(Capacity(s)), <<Deg(s, MaxLevel(s)), 2>>))
+(* the boundary may fall either way in binary64 *)
+ZeroFlagOk(flag, s, nw) == (ZeroStrictIn(s, nw) => flag) /\ (flag => ZeroInBand(s, nw))
 RowsOk(ev, col) == \A i \in 1..Len(ev.rows) : ev.rows[i][1] => ev.rows[i][col] <= Lim
 SrJudge(ev, n) ==
   LET s == ev.xs  nw == ev.xnw
   IN CASE n = "ConformsGround" -> ev.xE0 = GroundEnergy(s, nw) /\ ValidCount(s, nw)
-       [] n = "ConformsBandFlag" -> ev.xg[1] = 0 => /\ ZeroStrictIn(s, nw) => ev.rows[1][1]        \* (the boundary may fall either way in binary64)
-                                                        /\ ev.rows[1][1] => ZeroInBand(s, nw)
+       [] n = "ConformsBandFlag" -> ev.xg[1] = 0 => ZeroFlagOk(ev.rows[1][1], s, nw)
        [] n = "ImplGrid" -> ev.xts = GridOf(ev.xg) /\ Len(ev.rows) = Len(ev.xts)
        [] n = "ImplConservation" -> RowsOk(ev, 2)
        [] n = "ImplOutsideBand" -> \A i \in 1..Len(ev.rows) : (~ev.rows[i][1]) => ev.rows[i][2] <= Lim
